@@ -223,7 +223,7 @@ func one(cfg Config) *Result {
 							}
 							ack(g, n, op.Id())
 						case 2:
-							op, err := b.SetTitle(fmt.Sprintf("title g%d k%d", g, k))
+							op, err := b.SetTitle(fmt.Sprintf("title g%d k%d word%dx%dx%d", g, k, g, k, round))
 							if err == nil {
 								err = b.Commit()
 								if err != nil {
@@ -280,6 +280,20 @@ func one(cfg Config) *Result {
 					res.Stale = fmt.Sprintf("after round %d the excerpt of bug %s says title=%q comments=%d edit time=%d, its instance title=%q comments=%d edit time=%d",
 						round+1, id.Human(), e.Title, e.LenComments, e.EditLamportTime, s.Title, len(s.Comments), b.EditLamportTime())
 					break
+				}
+				// ... and what the search index holds about it: the bug is found by the last word of its title
+				if f := strings.Fields(s.Title); len(f) > 0 && strings.HasPrefix(f[len(f)-1], "word") {
+					q := query.NewQuery()
+					q.Search = []string{f[len(f)-1]}
+					hits, err := c.Bugs().Query(q)
+					found := false
+					for _, h := range hits {
+						found = found || h == id
+					}
+					if err != nil || !found {
+						res.Stale = fmt.Sprintf("after round %d the search index does not find bug %s by the word %q of its title %q (hits %v, %v)", round+1, id.Human(), f[len(f)-1], s.Title, hits, err)
+						break
+					}
 				}
 			}
 		}
